@@ -71,11 +71,19 @@ impl Prop for C10 {
             let twin = machines[k].clone();
             machines.push(twin);
         }
+        // wide line-ups (1 case in 128): the same machines repeated up to 33..300 positions; every position is
+        // compared with its solo run
+        if r.chance(1, 128) {
+            let w = *r.pick(&[32usize, 33, 40, 64, 65, 100, 200]);
+            let layout = r.below(3);
+            machines = crate::gen::widen(machines, w, layout);
+            out.bump("cases_with_more_than_32_machines");
+        }
         let n = machines.len();
         let rng_seed = rand_core::RngCore::next_u64(&mut r);
         let start = VClock(1 << 40);
         let h = HCfg {
-            calls: r.range(10, 150) as usize,
+            calls: if n > 32 { r.range(10, 60) as usize } else { r.range(10, 150) as usize },
             max_batch: *r.pick(&[1, 1, 2, 4, 8]),
             empty: true,
             backwards: true,
@@ -158,9 +166,11 @@ impl Prop for C10 {
         out.add("calls", h.calls as u64);
         out.add("solo_comparisons", (h.calls * n) as u64);
         if busy_calls > 0 {
-            out.nontrivial(hash_of(&(machines.iter().map(|m| m.serialize()).collect::<Vec<_>>(), hist)));
+            out.nontrivial(hash_of(&(machines.iter().take(8).map(|m| m.serialize()).collect::<Vec<_>>(), n, hist)));
         }
-        out.sample(|| json!({"machines": machines_json(&machines), "history_head": trace.iter().take(8).collect::<Vec<_>>(), "calls_with_2+_machines_active": busy_calls}));
+        if n <= 8 {
+            out.sample(|| json!({"machines": machines_json(&machines), "history_head": trace.iter().take(8).collect::<Vec<_>>(), "calls_with_2+_machines_active": busy_calls}));
+        }
         let _ = c08::C08::default;
     }
 }
